@@ -63,7 +63,7 @@ REQUIRED_PROBES = {
     "quick": ["native_names_swept", "module_symbols_swept", "flag_attacks",
               "crawl_functions_invoked", "interleaved_nonsecure_effects",
               "secure_allowed_module_read", "flag_probe_read",
-              "nonsecure_created_first"],
+              "nonsecure_created_first", "env_shared_with_nonsecure"],
 }
 REQUIRED_PROBES["thorough"] = REQUIRED_PROBES["quick"]
 
@@ -339,7 +339,8 @@ def gen_session(rng, tier):
     cfg = {"legacy": legacy, "nonsecure": True, "prng": round(rng.random(),
                                                               6),
            "n_legacy": rng.random() < 0.7,
-           "n_first": rng.random() < 0.5}
+           "n_first": rng.random() < 0.5,
+           "share_env": rng.random() < 0.5}
     files = base_files(12)
     files[f"{MOD_HOME}/umod.ckl"] = {"text": (
         "bind_native('file_delete');\nbind_native('execute');\n"
@@ -374,7 +375,23 @@ def gen_session(rng, tier):
                 f"require umod; umod->flag",
                 f"run('{CAN}/s.ckl')",
             ])
-            ops.append({"inst": "N", "src": src, "tag": "neighbour"})
+            if rng.random() < 0.25:
+                src = rng.choice(["def x = ;", "1 / 0", "error 'n'",
+                                  "do 1; 2", src + "; undefined_zz"])
+            o = {"inst": "N", "src": src, "tag": "neighbour"}
+            if cfg["share_env"] and rng.random() < 0.5:
+                # in a caller-supplied environment that the secure
+                # interpreter will also be given, the neighbour only runs
+                # commands that define nothing there: what a host puts into
+                # an environment it hands to a secure interpreter is the
+                # host's business, not a sandbox escape
+                o["env"] = rng.choice(["E1", "E2"])
+                o["src"] = rng.choice([
+                    "def x = ;", "1 / 0", "error 'n'", "do 1; 2", "1 +",
+                    f"file_exists('{CAN}/f1.txt')", "list_dir('/sim/work')",
+                    f"file_exists('{CAN}/f1.txt'); undefined_zz",
+                    "checkerlang_secure_mode", "run"])
+            ops.append(o)
             continue
         faults = []
         fsteps = []
@@ -435,12 +452,22 @@ def gen_session(rng, tier):
         else:
             new = [{"inst": "S", "kind": "crawl", "src": "",
                     "tag": "crawl"}]
+        senv = None
+        if cfg["share_env"] and rng.random() < 0.4:
+            # the caller hands the secure interpreter an environment the
+            # non-secure one has used (or will use)
+            senv = rng.choice(["E1", "E2"])
+            new = new + rng.sample(os_native_ops(), 3) + [
+                {"inst": "S", "src": "run(" + PSCRIPT + ")",
+                 "tag": "script"}]
         for o in new:
             o = dict(o)
             if faults:
                 o["faults"] = faults
             if fsteps:
                 o["steps"] = fsteps
+            if senv and o.get("kind") != "crawl":
+                o["env"] = senv
             ops.append(o)
     ops += flag_probe_ops(nprobe % 12)
     return {"config": cfg, "files": files, "ops": ops}
@@ -518,6 +545,8 @@ def run_case(case, root):
         if cfg.get("nonsecure") and N is None:
             N = sim.new_interpreter("N", False, cfg.get("n_legacy", True))
         moddirs = [MOD_HOME]
+        envs = {}
+        used_by = {}
         nsecure_ops = 0
         nshape = 0
         for idx, op in enumerate(case["ops"]):
@@ -536,8 +565,17 @@ def run_case(case, root):
                        "fired": []}
             else:
                 src = op["src"]
+                env = None
+                if op.get("env"):
+                    if op["env"] not in envs:
+                        from ckl.functions import Environment
+                        envs[op["env"]] = Environment()
+                    env = envs[op["env"]]
+                    used_by.setdefault(op["env"], set()).add(inst)
+                    if len(used_by[op["env"]]) > 1:
+                        probes["env_shared_with_nonsecure"] = 1
                 out = sim.run(idx, inst, op.get("faults", []),
-                              lambda: it.interpret(src, "c"),
+                              lambda: it.interpret(src, "c", env),
                               fault_steps=tuple(op.get("steps", ())))
             evs = w.trace[n_ev:]
             if inst == "N":
